@@ -260,9 +260,15 @@ def enumerate_faults(m, doc, rng, charset, icvn, kinds=None, alphabet=None):
             for ni, (typ, pos) in enumerate(node.syntax):
                 nv = flip_for_note(node, vals, typ, pos, rng, charset, icvn, codesets, quals)
                 if nv is not None:
-                    out.append({'kind': 'syntax_note', 'line': line, 'ele': None, 'comp': None, 'op': 'replace', 'new_vals': nv,
-                                'code': '10' if typ == 'E' else '2', 'value': None, 'neutral': True, 'ref': None,
-                                'seg_id': seg['id'], 'note': [typ, list(pos)]})
+                    f = {'kind': 'syntax_note', 'line': line, 'ele': None, 'comp': None, 'op': 'replace', 'new_vals': nv,
+                         'code': '10' if typ == 'E' else '2', 'value': None, 'neutral': True, 'ref': None,
+                         'seg_id': seg['id'], 'note': [typ, list(pos)]}
+                    used = len(vals)
+                    while used and not R.present(vals[used - 1]):
+                        used -= 1
+                    if len(nv) < used:
+                        f['ctx'] = 'trailing-cut'       # the violated note names only positions beyond the end of the data
+                    out.append(f)
     out += segment_faults(m, doc, rng, kinds)
     return out
 
